@@ -486,6 +486,118 @@ fn large_file(v: &(Vec<(u16, u8)>, bool), rep: &mut Rep) -> Result<(), String> {
     rep.nontrivial = true;
     Ok(())
 }
+/// files with tens of thousands of small messages: windows far larger than anything the server might handle in one of
+/// its cycles (streams and queries, with and without filter, asked while the file is read and after it was read)
+/// (number of messages selector, sort, [(is_query, window start sel, window length sel, filter kind, early)])
+fn many_messages(v: &(u16, bool, Vec<(bool, u16, u16, u8, bool)>), rep: &mut Rep) -> Result<(), String> {
+    let (nsel, sort, reqs) = v;
+    let total = 20_000 + (*nsel as usize % 45_000);
+    let sb = Sandbox::new("c16many");
+    let path = sb.path("many.dlt");
+    {
+        let mut w = std::io::BufWriter::new(std::fs::File::create(&path).map_err(|e| e.to_string())?);
+        for i in 0..total {
+            // two applications alternate in runs of 1..3 messages; 10 ms apart (the file spans several minutes)
+            let mut m = FMsg { ecu: 0, ext: Some((0x41, if (i / (1 + i % 3)) % 2 == 0 { 0 } else { 1 }, 4)), lifecycle: 0, word: (i % 5) as u8, text_preset: false, odd_ecu: None }.build(i as u32);
+            m.reception_time_us = BASE + i as u64 * 10_000;
+            m.timestamp_dms = i as u32 * 100;
+            m.payload_text = None;
+            m.to_write(&mut w).map_err(|e| e.to_string())?;
+        }
+        w.flush().map_err(|e| e.to_string())?;
+    }
+    let msgs: Vec<DltMessage> = {
+        let data = std::fs::read(&path).map_err(|e| e.to_string())?;
+        adlt::utils::get_dlt_message_iterator("dlt", 0, std::io::Cursor::new(data), 4242, None, None, None).collect()
+    };
+    ensure_eq!(msgs.len(), total, "harness: file re-read");
+    let apid0 = msgs[0].apid().cloned();
+    let mut srv = Server::start(&sb.dir, None)?;
+    let mut s = Sess { c: Client::connect(srv.port)?, announced: vec![] };
+    let result = (|| -> Result<(), String> {
+        let r = s.cmd(&format!(r#"open {{"files":["{}"],"sort":{}}}"#, path.display(), sort))?;
+        ensure!(r.starts_with("ok:"), "open failed: {}", r);
+        let mut asked: Vec<(u32, bool, usize, usize, u8)> = vec![];
+        let ask = |s: &mut Sess, q: &(bool, u16, u16, u8, bool)| -> Result<(u32, bool, usize, usize, u8), String> {
+            let (is_query, ssel, lsel, fk, _) = q;
+            let start = (*ssel as usize * (total / 2)) >> 16;
+            // lengths around the powers of two a chunked implementation would pick, and up to everything
+            let len = match lsel % 8 {
+                0 => 16_384 + (*lsel as usize / 8) % 3,
+                1 => 32_768 + (*lsel as usize / 8) % 3,
+                2 => 10_000 + (*lsel as usize / 8) % 9_000,
+                3 => total + 10,
+                _ => 16_000 + ((*lsel as usize * 50_000) >> 16),
+            };
+            let filters = match fk % 3 {
+                0 => String::new(),
+                1 => r#"{"type":0,"ecu":"ECU1"}"#.to_string(), // (keeps everything)
+                _ => format!(r#"{{"type":0,"apid":"{}"}}"#, apid0.map(|a| a.to_string()).unwrap_or_default().trim_end()),
+            };
+            let kind = if *is_query { "query" } else { "stream" };
+            let r = s.cmd(&format!(r#"{} {{"window":[{},{}],"binary":true,"filters":[{}]}}"#, kind, start, start + len, filters))?;
+            ensure!(r.starts_with("ok:"), "{} refused: {}", kind, r);
+            Ok((id_in_reply(&r).ok_or("no id")?, *is_query, start, len, fk % 3))
+        };
+        for q in reqs.iter().filter(|q| q.4) {
+            asked.push(ask(&mut s, q)?);
+        }
+        ensure!(s.c.wait_for(Duration::from_secs(40), &|log| log.iter().any(|f| matches!(f, Frame::FileInfo(n) if *n as usize >= total))), "the server reports {:?} of the {} messages of the file", s.c.last_file_info(), total);
+        s.c.pump(Duration::from_millis(300));
+        for q in reqs.iter().filter(|q| !q.4) {
+            asked.push(ask(&mut s, q)?);
+        }
+        // reference: file order (sorted = file order here: times increase with the index)
+        let name0 = apid0;
+        for (id, is_query, start, len, fk) in &asked {
+            let keep: Vec<u32> = msgs.iter().filter(|m| *fk != 2 || m.apid().cloned() == name0).map(|m| m.index).collect();
+            let exp: Vec<u32> = keep.iter().skip(*start).take(*len).cloned().collect();
+            let done = |log: &[Frame]| {
+                let mut n = 0;
+                let mut ended = false;
+                for f in log {
+                    if let Frame::Msgs(i, m) = f {
+                        if i == id {
+                            n += m.len();
+                            ended |= m.is_empty();
+                        }
+                    }
+                }
+                if *is_query { ended } else { n >= exp.len() }
+            };
+            s.c.wait_for(Duration::from_secs(30), &|log| done(log));
+            s.c.pump(Duration::from_millis(50));
+            let (got, ended, _, _) = s.frames_of(*id);
+            let gi: Vec<u32> = got.iter().map(|g| g.index).collect();
+            let what = format!("{} {} window [{}, {}) filter kind {} on a file of {} messages", if *is_query { "query" } else { "stream" }, id, start, start + len, fk, total);
+            ensure!(!*is_query || ended, "{}: not terminated by the empty frame ({} messages delivered)", what, gi.len());
+            ensure!(gi == exp, "{}: delivered {} messages {}, expected {} messages {}", what, gi.len(), head(&gi), exp.len(), head(&exp));
+            rep.label_if(exp.len() > 16_384, "window_gt_16384");
+            rep.label_if(exp.len() > 32_768, "window_gt_32768");
+        }
+        let r = s.cmd("close")?;
+        ensure!(r.starts_with("ok:"), "close failed: {}", r);
+        Ok(())
+    })();
+    let alive = srv.alive();
+    let stderr = srv.stderr_text();
+    drop(s);
+    drop(srv);
+    result?;
+    ensure!(alive && !stderr.contains("panicked"), "server died or panicked: {}", stderr.lines().rev().take(3).collect::<Vec<_>>().join(" / "));
+    rep.label_if(reqs.iter().any(|q| q.0 && !q.4), "query_after_the_file_was_read");
+    rep.label_if(reqs.iter().any(|q| q.4), "asked_while_reading");
+    rep.nontrivial = !reqs.is_empty();
+    Ok(())
+}
+pub fn def_sub_many(tier: Tier) -> Box<dyn DynSub> {
+    let req = (any::<bool>(), any::<u16>(), any::<u16>(), 0u8..3, prop::bool::weighted(0.3));
+    sub("many_messages", tier.pick(24, 500), (any::<u16>(), prop::bool::weighted(0.3), prop::collection::vec(req, 1..5)), many_messages)
+        .rates(&[("window_gt_16384", 0.5), ("query_after_the_file_was_read", 0.4)])
+        .shrink_iters(20)
+        .slow()
+        .boxed()
+}
 pub fn def_sub_large(tier: Tier) -> Box<dyn DynSub> {
     sub("large_file", tier.pick(32, 600), (prop::collection::vec((any::<u16>(), any::<u8>()), 12..26), prop::bool::weighted(0.3)), large_file).shrink_iters(20).slow().boxed()
 }
